@@ -530,6 +530,12 @@ impl ClusterActor {
                             break 'iter;
                         }
 
+                        // The watermark is the number of confirmed events: only sequences
+                        // strictly below it are confirmed (see `AtomicWatermark::can_read`)
+                        if event.partition_sequence >= watermark {
+                            break 'iter;
+                        }
+
                         last_read_sequence = event.partition_sequence + 1;
                         events.push(event);
                         events_collected += 1;
@@ -669,7 +675,7 @@ impl ClusterActor {
 
                         // Check if event is beyond watermark (safety check - uses
                         // partition_sequence)
-                        if event.partition_sequence > watermark {
+                        if event.partition_sequence >= watermark {
                             break 'iter;
                         }
 
